@@ -15,6 +15,60 @@ def r1(ctx):
 
 
 def r2_covariance(ctx):
+    """Interpret the subtype function on two parametrised generics whose origins are subclass-related: the answer is
+    the conjunction of the recursive answers on the argument pairs (a_i, b_i), and False when the lengths differ."""
+    import itertools
+
+    from ..model import AnalysisError
+    from ..orderdom import Interp
+
+    f = A.subclasscheck_fn(ctx.repo)
+    ctx.touch(f)
+    p1, p2 = f.params[0], f.params[1]
+    bad = None
+    n = 0
+    try:
+        for la, lb in ((2, 2), (1, 1), (1, 2), (2, 1), (3, 3)):
+            a = tuple(f"a{i}" for i in range(la))
+            b = tuple(f"b{i}" for i in range(lb))
+            for truth in itertools.product((True, False), repeat=min(la, lb)):
+                calls = []
+
+                def rec(x, y, truth=truth, calls=calls, a=a, b=b):
+                    calls.append((x, y))
+                    if x in a and y in b and a.index(x) == b.index(y):
+                        return truth[a.index(x)]
+                    return True  # a mispaired question is answered favourably: it must not have been asked
+
+                stubs = {
+                    "hasattr": lambda o, name: False,
+                    "get_origin": lambda t: {"G1": "O1", "G2": "O2"}.get(t),
+                    "typing.get_origin": lambda t: {"G1": "O1", "G2": "O2"}.get(t),
+                    "get_args": lambda t, a=a, b=b: {"G1": a, "G2": b}.get(t, ()),
+                    "typing.get_args": lambda t, a=a, b=b: {"G1": a, "G2": b}.get(t, ()),
+                    "isinstance": lambda o, t: o in ("O1", "O2"),
+                    "issubclass": lambda x, y: (x, y) == ("O1", "O2"),
+                    f.name: rec,
+                }
+                got = Interp(A.order_enum(ctx.repo).name, stubs=stubs).run(f.node, {p1: "G1", p2: "G2", "UnionTypes": (), "type": "type"})
+                want = la == lb and all(truth)
+                mispaired = [c for c in calls if not (c[0] in a and c[1] in b and a.index(c[0]) == b.index(c[1]))]
+                n += 1
+                if (bool(got) != want or mispaired) and bad is None:
+                    bad = (a, b, dict(zip(zip(a, b), truth)), got, mispaired)
+    except AnalysisError as e:
+        ctx.note(f"{f.key} not interpretable ({e}); shape rule used instead")
+        return _r2_covariance_shape(ctx)
+    ctx.ob(
+        f"{f.key}:covariant-arguments",
+        f.loc(),
+        f"parametrised generics are compared argument-wise, covariantly, under a length test ({n} cases interpreted)",
+        bad is None,
+        (f"for G1[{', '.join(bad[0])}] against G2[{', '.join(bad[1])}] with argument answers {bad[2]} the function answers {bad[3]}" + (f" after asking about {bad[4]}" if bad[4] else "") + ": list[Dog] would (not) be accepted where list[Animal] is expected") if bad else "",
+    )
+
+
+def _r2_covariance_shape(ctx):
     f = A.subclasscheck_fn(ctx.repo)
     ctx.touch(f)
     p1, p2 = f.params[0], f.params[1]
